@@ -7,6 +7,7 @@ Tree specifications (JSON-able):
              | ["U"]                  UpdateContextFromStatic
              | ["M", key]             MakeFilename("m_{{key}}")
              | ["W", key]             Write("w_{{key}}")
+             | ["W0", key]            Write("{{key}}") - the directory is the formatted value alone
              | ["C", key]             Cache("c<uid>_{{key}}.pkl")
              | ["D"]                  an ordinary data element (recording pass-through callable)
     node   ::= ["seq", [item...]] | ["src", [item...]] | ["split", [branch...]]
@@ -37,7 +38,7 @@ import json
 
 STATIC_TOP_KEYS = ("Ka", "Kb", "Kn")
 NODE_KINDS = ("seq", "src", "split")
-CONSUMERS = ("St", "U", "M", "W", "C")
+CONSUMERS = ("St", "U", "M", "W", "W0", "C")
 
 
 # ---- plain dictionary helpers (own implementations) -------------------------------------------
@@ -326,12 +327,12 @@ def expected_observation(leaf, ctx):
         return ctx
     if kind == "U":
         return ctx
-    if kind in ("M", "W", "C"):
+    if kind in ("M", "W", "W0", "C"):
         try:
             # a key "Ka+Kb" stands for the two-field template "{{Ka}}-{{Kb}}": derived only when both
             # fields can be resolved
             body = "-".join(str(lookup(ctx, k)) for k in leaf[1].split("+"))
-            return {"M": "m_", "W": "w_", "C": "c_"}[kind] + body + (".pkl" if kind == "C" else "")
+            return {"M": "m_", "W": "w_", "W0": "", "C": "c_"}[kind] + body + (".pkl" if kind == "C" else "")
         except KeyError:
             return None   # nothing derived
     raise ValueError(leaf)
